@@ -68,8 +68,15 @@ struct Spec {
     /// Lean types of the `let mut` variables carried through a loop, and of the loop element
     state_ty: &'static [(&'static str, &'static str)],
     elem_ty: &'static str,
-    /// Rust enums whose variants occur (regenerated from the given file, payloads dropped)
-    enums: &'static [(&'static str, &'static str)],
+    /// Rust enums whose variants occur, regenerated from the given file: (name, file, Lean type
+    /// parameters).  Without parameters the payloads are dropped; with parameters the payload types
+    /// are kept and mapped through `types`.
+    enums: &'static [(&'static str, &'static str, &'static str)],
+    /// Rust structs built by the function (`Self { … }`), regenerated from the given file:
+    /// (name, file, Lean type parameters, the Lean type of a value); field types through `types`.
+    structs: &'static [(&'static str, &'static str, &'static str, &'static str)],
+    /// Rust type (compact) ↦ Lean type, for enum payloads and struct fields
+    types: &'static [(&'static str, &'static str)],
     /// what the abstraction hides (printed into the header)
     note: &'static str,
 }
@@ -95,7 +102,9 @@ const SPECS: &[Spec] = &[
         methods: &[],
         state_ty: &[],
         elem_ty: "",
-        enums: &[("RoaMode", "src/server/ca/roa.rs")],
+        enums: &[("RoaMode", "src/server/ca/roa.rs", "")],
+        structs: &[],
+        types: &[],
         note: "`self` is only consulted through `is_currently_aggregating()` (a Bool parameter).",
     },
     Spec {
@@ -123,6 +132,8 @@ const SPECS: &[Spec] = &[
         state_ty: &[("keep", "Nat")],
         elem_ty: "Δ",
         enums: &[],
+        structs: &[],
+        types: &[],
         note: "deltas are abstract (`Δ`); the two wall-clock tests of a delta are parameter functions \
                `younger`/`older : Δ → seconds → Bool`; the four fields of `RrdpUpdatesConfig` are parameters.",
     },
@@ -147,6 +158,8 @@ const SPECS: &[Spec] = &[
         state_ty: &[],
         elem_ty: "",
         enums: &[],
+        structs: &[],
+        types: &[],
         note: "`Time` and `Duration` are whole seconds (`Int`); `Time - Duration` and `Time > Time` are the integer operations; \
                the wall clock `Time::now()` is a parameter; `self.next_update()` is the getter of `self.revision.next_update`.",
     },
@@ -171,9 +184,51 @@ const SPECS: &[Spec] = &[
         methods: &[],
         state_ty: &[],
         elem_ty: "",
-        enums: &[("ResourceClassKeyState", "src/server/ca/publishing.rs")],
+        enums: &[("ResourceClassKeyState", "src/server/ca/publishing.rs", "")],
+        structs: &[],
+        types: &[],
         note: "key object sets are abstract (`S`), `KeyObjectSet::requires_reissuance` is the parameter `due`; the payload of \
                `ResourceClassKeyState` is flattened into the three set parameters (each arm only reads the sets its variant has).",
+    },
+    Spec {
+        id: "C17",
+        file: "src/server/bgp/analyser.rs",
+        ty: "ValidatedRouteOrigin<P>",
+        method: "validate",
+        lean: "ValidatedRouteOrigin.validate",
+        sig: "origin:RouteOrigin<P>,covering:&[Roa<P>]->Self",
+        binders: "{ρ ω π : Type} (roa_origin : ρ → Nat) (roa_covers : ρ → Bool) (roa_effective_max_len : ρ → Nat) \
+                  (roa_payload : ρ → π) (origin : ω) (origin_asn origin_addr_len : Nat) (covering : List ρ)",
+        args: "roa_origin roa_covers roa_effective_max_len roa_payload origin origin_asn origin_addr_len covering",
+        ret: "ValidatedRouteOrigin ω π",
+        num: Num::Nat,
+        names: &[
+            ("origin", "origin"),
+            ("covering.iter().copied()", "covering"),
+            ("origin.origin", "origin_asn"),
+            ("origin.prefix.addr_len()", "origin_addr_len"),
+            ("roa.prefix.covers(origin.prefix)", "roa_covers roa"),
+            ("AsNumber::AS0", "0"),
+            ("Vec::new()", "([] : List π)"),
+        ],
+        methods: &[
+            (("roa", "origin"), "roa_origin roa"),
+            (("roa", "effective_max_len"), "roa_effective_max_len roa"),
+            (("roa", "payload"), "roa_payload roa"),
+        ],
+        state_ty: &[("invalidating", "List π"), ("same_asn_found", "Bool"), ("none_as0_found", "Bool")],
+        elem_ty: "ρ",
+        enums: &[("RouteOriginValidity", "src/server/bgp/analyser.rs", "(π : Type)")],
+        structs: &[("ValidatedRouteOrigin", "src/server/bgp/analyser.rs", "(ω π : Type)", "ValidatedRouteOrigin ω π")],
+        types: &[
+            ("RoaPayload", "π"),
+            ("RouteOrigin<P>", "ω"),
+            ("RouteOriginValidity", "RouteOriginValidity π"),
+            ("Vec<RoaPayload>", "List π"),
+        ],
+        note: "ROAs (`ρ`), route origins (`ω`) and payloads (`π`) are abstract; AS numbers and prefix lengths are `Nat` \
+               (`AsNumber::AS0` = 0); what the loop reads of a ROA are parameter functions (`roa_covers r` = \
+               `r.prefix.covers(origin.prefix)`); of the origin it reads its AS number and prefix length (parameters).",
     },
 ];
 
@@ -229,7 +284,11 @@ impl<'a> Tr<'a> {
     }
 
     fn enum_known(&self, n: &str) -> bool {
-        self.spec.enums.iter().any(|(e, _)| *e == n)
+        self.spec.enums.iter().any(|(e, _, _)| *e == n)
+    }
+
+    fn enum_has_payload(&self, n: &str) -> bool {
+        self.spec.enums.iter().any(|(e, _, p)| *e == n && !p.is_empty())
     }
 
     // ------------------------------------------------------------ expressions
@@ -337,11 +396,49 @@ impl<'a> Tr<'a> {
             E::Call(call) => {
                 let f = compact(&call.func);
                 let args: Vec<&syn::Expr> = call.args.iter().collect();
+                if let syn::Expr::Path(fp) = &*call.func {
+                    let segs: Vec<String> = fp.path.segments.iter().map(|s| s.ident.to_string()).collect();
+                    if let [en, v] = segs.as_slice() {
+                        if self.enum_has_payload(en) {
+                            let mut s = format!("({en}.{}", lean_ident(v));
+                            for a in &args {
+                                s.push(' ');
+                                s.push_str(&self.atom(a, ind)?);
+                            }
+                            s.push(')');
+                            return Ok(s);
+                        }
+                    }
+                }
                 match (f.as_str(), args.as_slice()) {
                     ("cmp::min" | "std::cmp::min", [a, b]) => Ok(format!("(min {} {})", self.atom(a, ind)?, self.atom(b, ind)?)),
                     ("cmp::max" | "std::cmp::max", [a, b]) => Ok(format!("(max {} {})", self.atom(a, ind)?, self.atom(b, ind)?)),
                     _ => Err(format!("call `{c}` (not in the name map)")),
                 }
+            }
+            E::Struct(st) => {
+                let name = compact(&st.path);
+                let me = self.spec.ty.split('<').next().unwrap_or("");
+                let name = if name == "Self" { me.to_string() } else { name };
+                let ty = self
+                    .spec
+                    .structs
+                    .iter()
+                    .find(|(n, _, _, _)| *n == name)
+                    .map(|(_, _, _, t)| *t)
+                    .ok_or_else(|| format!("struct literal `{name} {{…}}` (struct not in the spec)"))?;
+                if st.rest.is_some() || st.qself.is_some() {
+                    return Err(format!("struct literal with `..` in `{c}`"));
+                }
+                let mut fields = Vec::new();
+                for f in &st.fields {
+                    let fname = match &f.member {
+                        syn::Member::Named(i) => i.to_string(),
+                        syn::Member::Unnamed(_) => return Err(format!("tuple struct literal `{c}`")),
+                    };
+                    fields.push(format!("{} := {}", lean_ident(&fname), self.expr(&f.expr, ind + 2)?));
+                }
+                Ok(format!("({{ {} }} : {ty})", fields.join(", ")))
             }
             E::Field(_) => Err(format!("field access `{c}` (not in the name map)")),
             E::Cast(_) => Err(format!("cast `{c}` (not in the name map)")),
@@ -413,6 +510,11 @@ impl<'a> Tr<'a> {
             P::Reference(r) => self.pat(&r.pat),
             P::Path(q) if q.qself.is_none() => variant(self, &q.path),
             P::TupleStruct(t) if t.qself.is_none() => {
+                if let Some(en) = t.path.segments.first() {
+                    if self.enum_has_payload(&en.ident.to_string()) {
+                        return Err(format!("pattern `{c}` binds the payload of an enum generated with payload"));
+                    }
+                }
                 for el in &t.elems {
                     self.payload_binder(el)?;
                 }
@@ -757,18 +859,46 @@ fn mentions(e: &syn::Expr, ident: &str) -> bool {
     walk(e.to_token_stream(), ident)
 }
 
-fn gen_enum(repo: &Path, name: &str, file: &str) -> R {
+fn lean_ty(spec: &Spec, t: &syn::Type) -> R {
+    let c = compact(t);
+    spec.types
+        .iter()
+        .find(|(k, _)| *k == c)
+        .map(|(_, v)| v.to_string())
+        .ok_or_else(|| format!("type `{c}` has no Lean counterpart in the spec"))
+}
+
+fn gen_enum(repo: &Path, spec: &Spec, name: &str, file: &str, params: &str) -> R {
     let f = parse_file(repo, file);
     for item in &f.items {
         if let syn::Item::Enum(e) = item {
             if e.ident == name {
-                let mut s = format!("/-- `enum {name}` ({file}); payloads dropped. -/\ninductive {name} where\n");
+                let keep = !params.is_empty();
+                let mut s = format!(
+                    "/-- `enum {name}` ({file}){}. -/\ninductive {name}{}{params} where\n",
+                    if keep { "" } else { "; payloads dropped" },
+                    if keep { " " } else { "" }
+                );
                 for v in &e.variants {
-                    let payload = match &v.fields {
-                        syn::Fields::Unit => String::new(),
-                        f => format!("  -- payload `{}` dropped", compact(f)),
-                    };
-                    s.push_str(&format!("  | {}{payload}\n", lean_ident(&v.ident.to_string())));
+                    let vn = lean_ident(&v.ident.to_string());
+                    match &v.fields {
+                        syn::Fields::Unit => s.push_str(&format!("  | {vn}\n")),
+                        syn::Fields::Unnamed(u) if keep => {
+                            let mut b = String::new();
+                            for (i, fl) in u.unnamed.iter().enumerate() {
+                                b.push_str(&format!(" (a{i} : {})", lean_ty(spec, &fl.ty)?));
+                            }
+                            s.push_str(&format!("  | {vn}{b}\n"));
+                        }
+                        syn::Fields::Named(n) if keep => {
+                            let mut b = String::new();
+                            for fl in &n.named {
+                                b.push_str(&format!(" ({} : {})", lean_ident(&fl.ident.as_ref().unwrap().to_string()), lean_ty(spec, &fl.ty)?));
+                            }
+                            s.push_str(&format!("  | {vn}{b}\n"));
+                        }
+                        f => s.push_str(&format!("  | {vn}  -- payload `{}` dropped\n", compact(f))),
+                    }
                 }
                 s.push_str("deriving DecidableEq, Repr\n");
                 return Ok(s);
@@ -776,6 +906,26 @@ fn gen_enum(repo: &Path, name: &str, file: &str) -> R {
         }
     }
     Err(format!("enum {name} not found in {file}"))
+}
+
+fn gen_struct(repo: &Path, spec: &Spec, name: &str, file: &str, params: &str) -> R {
+    let f = parse_file(repo, file);
+    for item in &f.items {
+        if let syn::Item::Struct(st) = item {
+            if st.ident == name {
+                let syn::Fields::Named(n) = &st.fields else {
+                    return Err(format!("struct {name} is not a struct with named fields"));
+                };
+                let mut s = format!("/-- `struct {name}` ({file}). -/\nstructure {name} {params} where\n");
+                for fl in &n.named {
+                    s.push_str(&format!("  {} : {}\n", lean_ident(&fl.ident.as_ref().unwrap().to_string()), lean_ty(spec, &fl.ty)?));
+                }
+                s.push_str("deriving DecidableEq, Repr\n");
+                return Ok(s);
+            }
+        }
+    }
+    Err(format!("struct {name} not found in {file}"))
 }
 
 fn gen_fn(repo: &Path, spec: &Spec) -> R {
@@ -856,15 +1006,28 @@ pub fn run(repo: &Path, table: &str) -> String {
     for s in SPECS {
         let mut text = String::new();
         let mut res: Result<(), String> = Ok(());
-        for (en, file) in s.enums {
+        for (en, file, params) in s.enums {
             if enums_done.contains(en) {
                 continue;
             }
-            match gen_enum(repo, en, file) {
+            match gen_enum(repo, s, en, file, params) {
                 Ok(t) => {
                     text.push_str(&t);
                     text.push('\n');
                     enums_done.push(en);
+                }
+                Err(e) => res = Err(e),
+            }
+        }
+        for (sn, file, params, _) in s.structs {
+            if enums_done.contains(sn) {
+                continue;
+            }
+            match gen_struct(repo, s, sn, file, params) {
+                Ok(t) => {
+                    text.push_str(&t);
+                    text.push('\n');
+                    enums_done.push(sn);
                 }
                 Err(e) => res = Err(e),
             }
